@@ -51,12 +51,19 @@ def obligations(tier):
             L.append(ob("uorder/t=%d/p=%d" % (t, p), ".", "VerifC17UOrder", [t, p], covers=["first"] + (["fell-through"] if t in (0, 3, 4) else []), max_seconds=600, max_paths=200))
     UF_COV = ["one-value", "zero-values", "user-error", "skip", "unsupported-after-read"]
     for t, p, k, a, x in ((0, 0, 2, 4, "7"), (3, 1, 3, 4, "[7,[]]"), (4, 2, 3, 4, '{"a":7}'), (0, 3, 3, 4, '"s"'), (3, 4, 2, 4, "7"), (4, 7, 2, 4, '"7"'),
-                          (0, 1, 4, 3, "[]"), (3, 11, 5, 2, "1")):
+                          (0, 1, 4, 3, "[]"), (3, 11, 5, 2, "7")):
         L.append(ob("ufrom/t=%d/p=%d/k=%d/a=%d/%s" % (t, p, k, a, x), ".", "VerifC17UFrom", [t, p, k, a, x], covers=UF_COV, max_seconds=900, max_paths=30000))
     for t, p, n, tm in ((1, 0, 3, ""), (0, 3, 2, ""), (1, 0, 0, ' "?" '), (1, 3, 0, "[?,?]")):
         L.append(ob("uj/t=%d/p=%d/n=%d/%s" % (t, p, n, tm), ".", "VerifC17UJ", [t, p, n, tm], covers=["called", "accepted"], max_seconds=900, max_paths=60000))
     for t, p, n, tm in ((2, 0, 3, ""), (4, 3, 2, ""), (2, 0, 0, '"\\??"'), (2, 7, 0, '"??"'), (4, 0, 0, "nul?")):
         L.append(ob("ut/t=%d/p=%d/n=%d/%s" % (t, p, n, tm), ".", "VerifC17UT", [t, p, n, tm], covers=["null"] if tm.startswith("nul") else ["called"], max_seconds=900, max_paths=60000))
+    for t, p, api, r in ((0, 0, 0, False), (3, 1, 0, True), (4, 2, 0, True), (0, 0, 1, True), (0, 0, 2, True), (0, 4, 0, True), (0, 7, 0, False)):
+        L.append(ob("uopts/t=%d/p=%d/api=%d/reset=%d" % (t, p, api, r), ".", "VerifC17UOpts", [t, p, api, r], covers=["done"] + (["reset-tried"] if r else []), max_seconds=900, max_paths=2000))
+    UFS = [(0, 0, "TpTp", 0), (5, 1, "TpJp", 0), (0, 2, "JpTp", 0), (5, 3, "ToTiTp", 1), (0, 4, "TiJpTp", 0), (5, 5, "TpTiJo", 1), (0, 6, "TpJi", 0),
+           (5, 7, "TiTp", 0), (0, 8, "TpJp", 0), (5, 9, "JoTpJi", 1), (0, 10, "TiTpTp", 1)]
+    for t, p, spec, nest in UFS:
+        hasJ = any(spec[2 * i] == "J" and spec[2 * i + 1] != "o" for i in range(len(spec) // 2))
+        L.append(ob("ufuncs/t=%d/p=%d/%s/nest=%d" % (t, p, spec, nest), ".", "VerifC17UFuncs", [t, p, spec, bool(nest)], covers=([] if hasJ else ["all-skipped"]) + ["function-decides", "error"], max_seconds=900, max_paths=3000))
     if only:
         L = [o for o in L if re.match(only, o["id"])]
     return L
